@@ -26,8 +26,7 @@ def prepare(k):
     subprocess.check_call(["rsync", "-a", "--delete", "--exclude", ".git", "--exclude", "evidence", "--exclude", "seeded", "--exclude", "build/scratch*",
                            "--exclude", "build/replay*", VERIF + "/", v + "/"])
     os.makedirs(f"{v}/evidence", exist_ok=True)
-    for f, a, b in [(f"{v}/harness/Cargo.toml", 'path = "/repo"', f'path = "{rp}"'),
-                    (f"{v}/harness/.cargo/config.toml", "/verif/build/harness-target", f"{v}/build/harness-target")]:
+    for f, a, b in [(f"{v}/harness/Cargo.toml", 'path = "/repo"', f'path = "{rp}"')]:
         s = open(f).read()
         assert a in s, (f, a)
         open(f, "w").write(s.replace(a, b))
